@@ -27,7 +27,7 @@ CLAIM = dict(
          '(cells+16) u sum_cells (|x_i|+|x_i+1|)(|y_j|+|y_j+1|)/4 sum|v| (guard 8 units, Trace_Mesh2D.QuadGuard); a printed number must equal '
          'the value when the value has a p-digit decimal expansion and be within one unit of 10^-p otherwise. Not constrained (free choices / '
          'undocumented): how a complex value is typeset (Complex\'s Display ignores the precision; brackets and commas are dropped by the '
-         'reader), trailing blanks, the storage layout itself, quadratures of a mesh with an empty direction (the code panics or returns 0), '
+         'reader), blanks within a line, whether the blank line after the last y-block is present, the storage layout itself, quadratures of a mesh with an empty direction (the code panics or returns 0), '
          'out-of-range arguments (C20). Trusted: TLC, Mesh2D.tla, the harness projection (get_nodes_vars node by node, numerator = round(x*den) '
          'checked bit for bit), the decimal token reader, the residual measurement.',
     design='12.9 (X01)')
